@@ -1,4 +1,4 @@
-From PV Require Import Lib.Base Lib.Utf8 Syntax.RGrammar Syntax.Code Model.PState Model.Runtime
+From PV Require Import Lib.Base Lib.Utf8 Syntax.RGrammar Syntax.Code Model.PState Spec.Pos Model.Runtime
   Proofs.Utf8Proofs Proofs.ReadProofs Proofs.Inv.
 From Coq Require Import ZifyBool ZifyN ZifyNat.
 Local Open Scope nat_scope.
